@@ -450,6 +450,8 @@ func RunC07(c *Ctx, r *Report) {
 		return
 	}
 	r.Func(c.FuncName(gen))
+	c.noSharedStateRule(r, prefix+"derive.no-shared-state", "NewIKESAKey / GenerateKeyForIKESA (prf+, the PRF / integrity / cipher constructors)", 5,
+		gen, c.Func("security", "NewIKESAKey"))
 	c.c07Totality(r, prefix)
 	c.dhMethodShapes(r, prefix+"dh-secret-shape")
 	f := c.NewFA(gen)
@@ -784,6 +786,16 @@ func RunC08(c *Ctx, r *Report) {
 		return
 	}
 	r.Func(c.FuncName(gen))
+	{
+		roots := []*ssa.Function{gen, prfPlus}
+		// the long-lived PRF object keyed with SK_d is made by the descriptors' Init
+		if nt := c.NamedType("security/prf", "PRFType"); nt != nil {
+			for _, T := range c.Implementers(nt.Underlying().(*types.Interface)) {
+				roots = append(roots, c.methodOf(T, "Init"))
+			}
+		}
+		c.noSharedStateRule(r, prefix+"derive.no-shared-state", "GenerateKeyForChildSA (prf+ and the constructors of the PRF object keyed with SK_d)", 3, roots...)
+	}
 	c.c08Totality(r, prefix)
 	c.registryLengthRulesOf(r, prefix+"registry-lengths.child", 1, 6)
 	f := c.NewFA(gen)
